@@ -123,7 +123,8 @@ RegDepIns == { Lw("t0", "a0", 0), Li("t0", 5), Addi("t0", "t0", 1), AddI("t1", "
                Lw("t1", "a0", 4), I("mv", "t2", "t0", "zero", 0, 0), AddI("t2", "t2", "t1"),
                AddI("t2", "t1", "t0"), I("mul", "t3", "t0", "t0", 0, 0),
                Sw("t1", "a1", 64),    \* a store miss keeps the write path busy while registers are produced and consumed
-               I("mv", "t1", "t1", "zero", 0, 0) }   \* a self-move still is a pending write of its register
+               I("mv", "t1", "t1", "zero", 0, 0),    \* a self-move still is a pending write of its register
+               Addi("a0", "a0", 0), Lh("t1", "a0", 2) } \* the base register of a load is produced by the instruction before it
 RegDepCases == { <<s, img>> : s \in UpTo(RegDepIns, IF Size = "large" THEN 4 ELSE 3), img \in {"ramp"} }
 RegDepCase(x) ==
   LET p == x[1] \o <<Nop>>
@@ -411,6 +412,21 @@ OobCase(x) ==
       fin == Final(p, r0, "ramp", 256, 64)
   IN CaseRec("Oob", p, r0, "ramp", 256, fin, {}, {}, {"out_of_range"}, [base |-> x[1], off |-> x[2]])
 
+(* ------------------------------- FarChain (C12, C01) ------------------------ *)
+(* n blocks of 17 instructions; each block starts with a jump to the next one, so that every executed  *)
+(* instruction is a taken jump that leaves the instruction window / line it sits in.                    *)
+FarChainCases == { <<n, kind>> : n \in 2 .. 5, kind \in {"j", "jal", "beq"} }
+FarChainCase(x) ==
+  LET n == x[1]
+      Jmp(t) == CASE x[2] = "j" -> J(t) [] x[2] = "jal" -> I("jal", "ra", "zero", "zero", 0, t) [] OTHER -> B("beq", "zero", "zero", t)
+      block(i) == <<Jmp(17 * i)>> \o [k \in 1 .. 16 |-> Addi("t2", "t2", 1)]      \* block i - 1 jumps to the start of block i
+      RECURSIVE Blocks(_)
+      Blocks(i) == IF i > n THEN <<>> ELSE block(i) \o Blocks(i + 1)
+      p == Blocks(1) \o <<Addi("t1", "t1", 7), Nop>>
+      r0 == Regs0(64, 128, 77, 5, 6, 0)
+      fin == Final(p, r0, "ramp", 256, 64)
+  IN CaseRec("FarChain", p, r0, "ramp", 256, fin, {"t1", "t2", "ra"}, {}, Tags(p, fin), [taken |-> TRUE, n |-> n])
+
 (* ------------------------------- FarBack (C03) ------------------------------ *)
 (* A taken transfer k instructions before the END of the program text whose target lies in an         *)
 (* instruction line that was jumped over at the start (so it is fetched through an instruction-cache   *)
@@ -442,11 +458,11 @@ EndAtCase(x) ==
       fin == Final(p, r0, "ramp", 256, 64)
   IN CaseRec("EndAt", p, r0, "ramp", 256, fin, {"t1", "t2"}, 68 .. 71, Tags(p, fin), [n |-> n, kind |-> x[2]])
 
-Cases == CASE Family = "Oob" -> OobCases [] Family = "FarBack" -> FarBackCases [] Family = "EndAt" -> EndAtCases [] Family = "Shadow" -> ShadowCases [] Family = "Shadow2" -> Shadow2Cases [] Family = "Tail2" -> Tail2Cases [] Family = "Misaligned" -> MisCases [] Family = "Repo" -> RepoCases [] Family = "Unroll" -> UnrollCases [] Family = "Call" -> CallCases [] Family = "LineFill" -> LineFillCases
+Cases == CASE Family = "FarChain" -> FarChainCases [] Family = "Oob" -> OobCases [] Family = "FarBack" -> FarBackCases [] Family = "EndAt" -> EndAtCases [] Family = "Shadow" -> ShadowCases [] Family = "Shadow2" -> Shadow2Cases [] Family = "Tail2" -> Tail2Cases [] Family = "Misaligned" -> MisCases [] Family = "Repo" -> RepoCases [] Family = "Unroll" -> UnrollCases [] Family = "Call" -> CallCases [] Family = "LineFill" -> LineFillCases
            [] Family = "RegDep" -> RegDepCases [] Family = "Tail" -> TailCases
            [] Family = "MemDep" -> MemDepCases [] Family = "MemWalk" -> WalkCases [] Family = "Err" -> ErrCases
            [] Family = "Timing" -> TimingCases
-MkCase(x) == CASE Family = "FarBack" -> FarBackCase(x) [] Family = "EndAt" -> EndAtCase(x) [] Family = "Oob" -> OobCase(x) [] Family = "Shadow" -> ShadowCase(x) [] Family = "Shadow2" -> Shadow2Case(x) [] Family = "Tail2" -> Tail2Case(x) [] Family = "Misaligned" -> MisCase(x) [] Family = "Repo" -> RepoCase(x) [] Family = "Unroll" -> UnrollCase(x) [] Family = "Call" -> CallCase(x) [] Family = "LineFill" -> LineFillCase(x) [] Family = "RegDep" -> RegDepCase(x) [] Family = "Tail" -> TailCase(x)
+MkCase(x) == CASE Family = "FarChain" -> FarChainCase(x) [] Family = "FarBack" -> FarBackCase(x) [] Family = "EndAt" -> EndAtCase(x) [] Family = "Oob" -> OobCase(x) [] Family = "Shadow" -> ShadowCase(x) [] Family = "Shadow2" -> Shadow2Case(x) [] Family = "Tail2" -> Tail2Case(x) [] Family = "Misaligned" -> MisCase(x) [] Family = "Repo" -> RepoCase(x) [] Family = "Unroll" -> UnrollCase(x) [] Family = "Call" -> CallCase(x) [] Family = "LineFill" -> LineFillCase(x) [] Family = "RegDep" -> RegDepCase(x) [] Family = "Tail" -> TailCase(x)
                [] Family = "MemDep" -> MemDepCase(x) [] Family = "MemWalk" -> WalkCase(x) [] Family = "Err" -> ErrCase(x)
                [] Family = "Timing" -> TimingCase(x)
 
